@@ -104,6 +104,66 @@ def native_sign_sensitive(shape=None, seed=0, container="set"):
     return problems, sc
 
 
+def native_tiny_constant(seed=0):
+    """A model whose constants are physically tiny (G = 6.674e-11, a picofarad): every output that is a PURE multiple of such a constant is
+    compared RELATIVE TO ITS OWN MAGNITUDE, CSE on and off, python filter and (thorough) generated C++.  Returns (problems, scenario)."""
+    import warnings
+
+    import numpy as np
+    import sympy
+
+    sc = scenarios.Scenario(3, 1, 1, [1], seed=seed + 5)
+    G, pF = sympy.Float(6.674e-11), sympy.Float(3.3e-12)
+    a, b, c3 = sc.state[0], sc.state[1], sc.state[2]
+    cal = sc.calibration[0]
+    sc.state_model[a] = G * cal * b + G * a          # gravity-like pull: nothing of ordinary magnitude in this update
+    sc.state_model[b] = b + sc.dt * a + pF * c3 * c3
+    key = sc.sensor_names[0]
+    r0 = sorted(sc.sensor_models[key])[0]
+    sc.sensor_models[key][r0] = G * a * b + pF * c3
+    pt = sc.point(seed)
+    sub = {k: sympy.Rational(v.numerator, v.denominator) for k, v in pt.items()}
+    AS = sorted(sc.state, key=lambda s: s.name)
+    AU = sorted(sc.control, key=lambda s: s.name)
+    F = sympy.Matrix([sc.state_model[s] for s in AS])
+    Gx, Fx = scenarios.jacobian_at(F, AS, sub), F.subs(sub)
+    rn = sorted(sc.sensor_models[key])
+    h = sympy.Matrix([sc.sensor_models[key][r] for r in rn])
+    Hx = scenarios.jacobian_at(h, AS, sub)
+    problems = []
+
+    def rel(tag, got, want):
+        w = float(want)
+        g = float(got)
+        if w == 0.0:
+            ok = g == 0.0
+        else:
+            ok = abs(g - w) <= 1e-9 * abs(w)
+        if not ok:
+            problems.append(f"{tag} = {g!r}, exact {w!r}")
+
+    outs = {}
+    with warnings.catch_warnings():
+        warnings.simplefilter("ignore")
+        for cse in (True, False):
+            try:
+                py, ekf = scenarios.build_ekf(sc, config={"common_subexpression_elimination": cse})
+                state, ctl = scenarios.named_state(ekf, sc, pt), scenarios.named_control(ekf, sc, pt)
+                r = ekf.process_model(float(pt[sc.dt]), state, ekf.Covariance(), ctl)
+                J = ekf.process_jacobian(float(pt[sc.dt]), state, ctl)
+                H = ekf.sensor_jacobian(key, state)
+                for i in range(sc.n):
+                    rel(f"CSE {'on' if cse else 'off'}: state {AS[i].name}", r.state.data[i, 0], Fx[i, 0])
+                    for j in range(sc.n):
+                        rel(f"CSE {'on' if cse else 'off'}: process_jacobian[{i},{j}]", J[i, j], Gx[i, j])
+                for i in range(len(rn)):
+                    for j in range(sc.n):
+                        rel(f"CSE {'on' if cse else 'off'}: sensor_jacobian[{i},{j}]", H[i, j], Hx[i, j])
+            except Exception as e:
+                problems.append(f"CSE {'on' if cse else 'off'}: {type(e).__name__}: {(str(e).splitlines() or [''])[0][:120]}")
+    return problems, sc
+
+
 def native_pole_form():
     """|x| next to a pole at x on symbols declared real (function zoo form abs_form_with_pole): python, and the generated C++"""
     from replay import zoo
@@ -173,6 +233,11 @@ def check(run):
             if zf >= 3:
                 break
     run.bounded.append({"what": "function zoo: one filter per elementary-function form (|v|, sqrt|v|, Piecewise, Max/Min, atan2, sec/cot/csc, sinc, erf, fractional and negative powers, ...) compiled with CSE on and off: state update and all three Jacobians against the exact real-valued oracle" + ("; generated C++ compiled and compared with the python filter" if run.tier == "thorough" else ""), "bound": f"{len(cases)} models x 2 CSE settings, one point each; {refused} back-end/setting combinations refused the form loudly (not a failure)", "failures": zf, "counted_as_proved": False})
+    run.native_runs += 1
+    tp, tsc = native_tiny_constant(run.seed)
+    run.bounded.append({"what": "filter of a model whose constants are physically tiny (6.674e-11, 3.3e-12): state update and Jacobians, CSE on and off, each entry compared relative to its OWN magnitude", "bound": "1 model x 2 CSE settings", "failures": len(tp), "counted_as_proved": False})
+    for p in tp[:1]:
+        run.findings.append(Finding("C08.py.native_tiny_constant", "tiny-constant", f"model with constants 6.674e-11 and 3.3e-12: {p}", {"language": "python", "inputs": {"tiny_constant": True, "seed": run.seed}, "model_definition": tsc.describe(), "oracle_verdict": tp[:4]}, True))
     run.bounded.append({"what": "compiled python model with nested shared sub-expressions: CSE on vs off vs exact sympy, four calls on the same compiled object (a point, two nearby points, the first point again)", "bound": f"{len(shapes)} programs", "failures": fails, "counted_as_proved": False})
     try:
         from checks import cxx_generated
@@ -193,6 +258,10 @@ def cxx_ssa_native(shape, seed, container="set"):
 
 def replay_file(payload):
     inp = payload["inputs"]
+    if inp.get("tiny_constant"):
+        tp, _ = native_tiny_constant(inp.get("seed", 0))
+        print("replay C08 (physically tiny constants):", tp[:3] or "every entry agrees relative to its own magnitude, CSE on and off")
+        return not tp
     if inp.get("zoo_form"):
         from replay import zoo
 
